@@ -150,8 +150,22 @@ func c20Case(rt *rapid.T, rec *vt.Rec) {
 	}
 	n := rapid.IntRange(3, 14).Draw(rt, "steps")
 	for k := 0; k < n; k++ {
-		op := rapid.SampledFrom([]string{"start", "start", "doubleStart", "stop", "advance", "advance", "advance", "force", "startFailConnect", "startFailUpdate", "failNextKeepalive"}).Draw(rt, "op")
+		op := rapid.SampledFrom([]string{"start", "start", "doubleStart", "stop", "advance", "advance", "advance", "force", "startFailConnect", "startFailUpdate", "failNextKeepalive", "reconfigure"}).Draw(rt, "op")
 		switch op {
+		case "reconfigure":
+			// the owner changes the configured interval while the agent is not running (also before its first start): the next run uses the new value
+			if running || pendingWait {
+				continue
+			}
+			interval = 0
+			effective = 60 * time.Second
+			if rapid.IntRange(0, 4).Draw(rt, "newIntervalSet") > 0 {
+				interval = time.Duration(rapid.Int64Range(int64(time.Second), int64(119*time.Second)).Draw(rt, "newInterval"))
+				effective = interval
+			}
+			a.UpdateInterval = interval
+			logf("the update interval is set to %s (effective %s) while the agent is not running", interval, effective)
+			classes["reconfigure"] = true
 		case "start", "startFailConnect", "startFailUpdate":
 			if pendingWait {
 				a.Wait()
@@ -365,7 +379,7 @@ func relTimes(ts []time.Time) []string {
 func TestC20AgentLifecycle(t *testing.T) {
 	defer vt.Watch("TestC20AgentLifecycle", 120*time.Second)()
 	rec := vt.For("C20")
-	rec.Rule("real agent.Agent with a recording node and a scripted pool in virtual time; rules: start, two concurrent starts, start with failing connect, start with failing first keep-alive, stop (while running) with a concurrent Wait, advance (random and exact multiples of the interval), forced update, make the next loop keep-alive fail; interval in [1s,119s] or unset (60s); oracle (model): first start => one Connect + one immediate keep-alive; start while running => ErrAlreadyStarted and no pool call; of two concurrent starts exactly one succeeds; loop keep-alives arrive at exactly loopStart+k*interval and floor(T/interval) of them in any window (a second loop would double them); stop => Wait returns nil at the next quiescent point and nothing is sent afterwards; a failed start leaves nothing running; a failed keep-alive ends the loop and Wait returns that error; restart works; at the end no goroutine is alive; non-trivial = history with a double start, a failed start or a restart; distinct by interval + op sequence")
+	rec.Rule("real agent.Agent with a recording node and a scripted pool in virtual time; rules: start, two concurrent starts, start with failing connect, start with failing first keep-alive, stop (while running) with a concurrent Wait, advance (random and exact multiples of the interval), forced update, make the next loop keep-alive fail, change the configured interval while not running; interval in [1s,119s] or unset (60s); oracle (model): first start => one Connect + one immediate keep-alive; start while running => ErrAlreadyStarted and no pool call; of two concurrent starts exactly one succeeds; loop keep-alives arrive at exactly loopStart+k*interval and floor(T/interval) of them in any window (a second loop would double them); stop => Wait returns nil at the next quiescent point and nothing is sent afterwards; a failed start leaves nothing running; a failed keep-alive ends the loop and Wait returns that error; restart works; at the end no goroutine is alive; non-trivial = history with a double start, a failed start or a restart; distinct by interval + op sequence")
 	rapid.Check(t, func(rt *rapid.T) {
 		rapid.SyncTest(rt, func(rt *rapid.T) { c20Case(rt, rec) })
 	})
